@@ -6,6 +6,7 @@
   handed to SendMsg, and on a clean end the two sequences are equal.
   (Messages are opaque identities: content equality through Clone/Copy is C18's.)
 -/
+import Proofs.Lemmas.HttpClient
 import Proofs.Lemmas.InprocAll
 
 namespace InprocStream
@@ -109,3 +110,57 @@ example : ∃ s, run (init 1 1 true)
   exact ⟨_, rfl, rfl, rfl, rfl, rfl⟩
 
 end InprocStream
+
+/-! ### HTTP/1.1 client stream (`httpgrpc` clientStream: reader goroutine, rCh hand-off, RecvMsg) -/
+namespace HttpClientStream
+open InprocStream (Reason Res codeOf)
+
+theorem hinv_reachable (rs : Bool) (s : St) (h : Reachable rs s) : HInv s :=
+  reachable_induction rs HInv (hinv_init rs) hinv_step s h
+
+theorem respStream_const (rs : Bool) (s : St) (h : Reachable rs s) : s.respStream = rs :=
+  reachable_induction rs (fun s => s.respStream = rs) rfl (fun s a s' evs hp hs => by
+    cases a <;> simp only [step, complete] at hs <;> (repeat' split at hs) <;>
+      (try (simp only [Option.some.injEq, Prod.mk.injEq, reduceCtorEq] at hs)) <;>
+      (try (obtain ⟨rfl, rfl⟩ := hs)) <;> (try (exfalso; assumption)) <;> simp_all) s h
+
+/-- **HTTP responses**: on a response-streaming call, what RecvMsg has returned is at every moment a
+    prefix of the decodable data frames the transport has supplied, in order — for every
+    interleaving of the transport, the reader goroutine, the receiver and the cancellation instant. -/
+theorem C01_http_response_prefix (s : St) (h : Reachable true s) : s.delivered <+: s.supplied :=
+  (hinv_reachable true s h).pre (respStream_const true s h)
+
+/-- the final outcome is io.EOF exactly when no error was recorded and the trailer says OK -/
+theorem final_eof (s : St) (hi : HInv s) (hd : s.done = true) (hf : finalOf s = .eof) :
+    s.rErr = none ∧ s.tr = some 0 := by
+  have hne := hi.rErrNotEof
+  cases hr : s.rErr with
+  | some e => simp [finalOf, hr] at hf; subst hf; exact absurd hr hne
+  | none =>
+    refine ⟨rfl, ?_⟩
+    have := hi.doneTr hd hr
+    cases ht : s.tr with
+    | none => simp [ht] at this
+    | some c =>
+      cases c with
+      | zero => rfl
+      | succ n => simp [finalOf, hr, ht] at hf
+
+/-- **HTTP responses, clean end**: when the call has completed with io.EOF, the reader has read an
+    OK trailer frame, nothing was dropped, and the client has received every decodable data frame
+    the transport supplied. -/
+theorem C01_http_response_complete (s : St) (h : Reachable true s) (hd : s.done = true) (hf : finalOf s = .eof) :
+    s.delivered = s.supplied ∧ s.sawTrailerOK = true := by
+  have hi := hinv_reachable true s h
+  obtain ⟨hre, htr⟩ := final_eof s hi hd hf
+  have hsaw := hi.trOK htr
+  obtain ⟨_, hpc, hbody⟩ := hi.sawSup hsaw
+  have hnd : s.dropped = false := by
+    cases hdr : s.dropped with
+    | false => rfl
+    | true => have := (hi.droppedDone hdr).2; simp [hre] at this
+  have := hi.live (respStream_const true s h) hnd
+  simp [holdList, hpc, hbody] at this
+  exact ⟨this.symm, hsaw⟩
+
+end HttpClientStream
